@@ -423,6 +423,9 @@ func runAPI(out io.Writer, seed int64, n int, depth int) {
 			id++
 			recv, ok1 := safeDump(cur)
 			args, ok2 := encodeArgs(d, pl.Type(), pl.Args())
+			if !ok2 && (meth == "ApplyIf" || meth == "ApplySelectJson") {
+				args, ok2 = encodeFuncArgs(d, safeDump, cur, meth, pl.Args())
+			}
 			if !ok1 || !ok2 {
 				step.Skip = "unsupported argument or receiver"
 				enc.Encode(step)
@@ -603,4 +606,68 @@ func apiCatalogue(g *gen.Gen, seed int64, budget int, record func(name, owner st
 	for _, j := range binary {
 		run(j)
 	}
+}
+
+// embedded finds the value of type t that v is or embeds (promoted methods run on it).
+func embedded(v reflect.Value, t reflect.Type) (reflect.Value, bool) {
+	if v.Type() == t {
+		return v, true
+	}
+	if v.Kind() == reflect.Struct {
+		for i := 0; i < v.NumField(); i++ {
+			if v.Type().Field(i).Anonymous {
+				if r, ok := embedded(v.Field(i), t); ok {
+					return r, true
+				}
+			}
+		}
+	}
+	return reflect.Value{}, false
+}
+
+// encodeFuncArgs: the function argument of ApplyIf / ApplySelectJson travels as the value it returns on this receiver
+// (computed here by calling it; "nil" for a nil function).
+func encodeFuncArgs(d *dump.Dumper, safeDump func(reflect.Value) (string, bool), cur reflect.Value, meth string, args []reflect.Value) (out []string, ok bool) {
+	defer func() {
+		if recover() != nil {
+			out, ok = nil, false
+		}
+	}()
+	fn := args[len(args)-1]
+	if fn.Kind() != reflect.Func {
+		return nil, false
+	}
+	if meth == "ApplyIf" {
+		if len(args) != 2 || args[0].Kind() != reflect.Bool {
+			return nil, false
+		}
+		out = append(out, "(bool "+map[bool]string{true: "T", false: "F"}[args[0].Bool()]+")")
+	}
+	if fn.IsNil() {
+		return append(out, "(exp nil)"), true
+	}
+	in := fn.Type().In(0)
+	var arg reflect.Value
+	if meth == "ApplyIf" {
+		var found bool
+		if arg, found = embedded(cur, in); !found {
+			return nil, false
+		}
+	} else {
+		sb, found := embedded(cur, reflect.TypeOf(builder.SelectBuilder{}))
+		if !found {
+			return nil, false
+		}
+		ptr := field(field(sb, "parts"), "selectJson")
+		arg = reflect.Zero(in)
+		if !ptr.IsNil() {
+			arg = ptr.Elem()
+		}
+	}
+	res := fn.Call([]reflect.Value{arg})[0]
+	rd, ok2 := safeDump(res)
+	if !ok2 {
+		return nil, false
+	}
+	return append(out, "(exp "+rd+")"), true
 }
